@@ -81,7 +81,8 @@ def run_verus(path, extra=()):
     r['ran_at'] = time.time()
     try:
         os.makedirs(cdir, exist_ok=True)
-        tmp = cpath + '.%d.tmp' % os.getpid()
+        import threading
+        tmp = cpath + '.%d.%d.tmp' % (os.getpid(), threading.get_ident())
         with open(tmp, 'w') as f:
             json.dump(r, f)
         os.replace(tmp, cpath)
@@ -178,7 +179,8 @@ class UnitRun:
         h8 = hashlib.sha256(text.encode()).hexdigest()[:10]
         out = os.path.join(BUILD, '%s%s-%s.rs' % (self.label.replace('+', '_'), tag, h8))
         if not os.path.exists(out):
-            tmp = out + '.%d.tmp' % os.getpid()
+            import threading
+            tmp = out + '.%d.%d.tmp' % (os.getpid(), threading.get_ident())
             with open(tmp, 'w') as f:
                 f.write(text)
             os.replace(tmp, out)
